@@ -50,6 +50,12 @@ var corpus = []string{
 	// start-anchored patterns with '.': UseBoundedBacktracker plus the ASCII automaton and the
 	// engine-level ASCII backtracker (the *stateless* BoundedBacktracker entry points)
 	`^/.*\.html`, `^\w+: .*\d`, `^GET /.* HTTP/1\.[01]`, `^(.*)=(\d+)`, `^.+@.+\..+`, `^\[(.*)\] (\w+)`, `^.{3,10}x`, `^(\w+)=(.*)$`, `^.*x.*y`, `^(?:.*,){2}`, `(\w+)=(.*)`,
+	// multiline reverse-suffix with a prefix literal to verify; (?m)^ with a complete literal
+	// set (line-anchor wrapper around the prefilter)
+	`(?m)^/.*\.php`, `(?m)^ERROR.*\.log`, `(?m)^foo`, `(?m)^(?:foo|bar|baz)`, `(?m)^ERROR`, `(?m)^(?:GET|POST|HEAD)`,
+	// >= 16 byte classes with a state that loops on all but one to three of them (lazy-DFA
+	// state acceleration: memchr / memchr2 / memchr3 to the next exit byte)
+	`x[^y]*y(?:a1|b2|c3|d4|e5|f6|g7|h8|i9)`, `<[^>]*>(?:a1|b2|c3|d4|e5|f6|g7|h8)`, `q[^rs]*[rs](?:a1|b2|c3|d4|e5|f6|g7|h8)`, `k[^lmn]*[lmn](?:a1|b2|c3|d4|e5|f6|g7|h8)`,
 	// state blow-up (many reachable DFA states on inputs over the pattern's own alphabet)
 	`a[ab]{12}[cd]`, `[cd][ab]{10}a[ab]*x`, `ab[ab]{20}c`, `(a|b)*a(a|b){9}`, `[01]*1[01]{11}`,
 }
